@@ -16,10 +16,14 @@ pub mod c11;
 pub mod c12;
 pub mod c13;
 pub mod c14;
+pub mod c15;
 pub mod c16;
 pub mod c17;
 
-pub const ALL: &[&str] = &["C01", "C02", "C03", "C04", "C05", "C06", "C07", "C08", "C09", "C10", "C11", "C12", "C13", "C14", "C16", "C17"];
+pub const ALL: &[&str] = &[
+    "C01", "C02", "C03", "C04", "C05", "C06", "C07", "C08", "C09", "C10", "C11", "C12", "C13",
+    "C14", "C15", "C16", "C17",
+];
 
 pub fn run(id: &str, ctx: &Ctx) {
     match id {
@@ -37,6 +41,7 @@ pub fn run(id: &str, ctx: &Ctx) {
         "C09" => c09::run(ctx),
         "C12" => c12::run(ctx),
         "C13" => c13::run(ctx),
+        "C15" => c15::run(ctx),
         "C16" => c16::run(ctx),
         "C17" => c17::run(ctx),
         _ => {
@@ -62,6 +67,7 @@ pub fn replay(id: &str, ctx: &Ctx, sub: &str, case: &Value) -> Vec<Violation> {
         "C09" => c09::replay(ctx, sub, case),
         "C12" => c12::replay(ctx, sub, case),
         "C13" => c13::replay(ctx, sub, case),
+        "C15" => c15::replay(ctx, sub, case),
         "C16" => c16::replay(ctx, sub, case),
         "C17" => c17::replay(ctx, sub, case),
         _ => {
